@@ -224,6 +224,10 @@ func (w *worker) runSel(c *selCase, raw []byte) {
 	if P["C07"] {
 		modes = []Mode{{}, {MapOrder: 1}, {MapOrder: 2}, {MapOrder: 3, Number: true}}
 	}
+	if P["C07"] {
+		w.checkOrder(c, canon, kinds, raw)
+		return
+	}
 	var canonResp []resp
 	for si := range c.Texts {
 		sp := &c.Texts[si]
@@ -814,4 +818,45 @@ func containersPreorder(v interface{}) []interface{} {
 		}
 	}
 	return out
+}
+
+// C07: the same path on independently built equal maps (different insertion orders, pre-sized, grown and
+// shrunk), several times each (Go randomises every range loop), interleaved with evaluations on another
+// map that recycle the pooled key buffers.  Every evaluation must return the specification's sequence.
+func (w *worker) checkOrder(c *selCase, text, kinds string, raw []byte) {
+	nkeys := len(c.Doc.O)
+	decoyDoc := map[string]interface{}{"q": 1.0, "zz": map[string]interface{}{"y": 1.0, "x": 2.0, "w": 3.0}, "m": 2.0, "b": 3.0, "k": 4.0, "a": 5.0, "\uffff": 6.0}
+	decoy := safeParse("$..*", nil)
+	pr := safeParse(text, nil)
+	if pr.Err != nil || pr.Panic != nil {
+		w.viol("C07", "parse-failed", text, "", fmt.Sprintf("%v %v", pr.Err, pr.Panic), kinds, raw)
+		return
+	}
+	for mo := 0; mo < 4; mo++ {
+		for rep := 0; rep < 8; rep++ {
+			m := Mode{MapOrder: mo, Number: rep%2 == 1}
+			doc := c.Doc.ToGo(m)
+			f := pr.F
+			if rep >= 4 { // a freshly parsed function as well as a re-used one
+				f = safeParse(text, nil).F
+			}
+			r := safeCall(f, doc)
+			w.count("C07:evaluations", 1)
+			w.count(fmt.Sprintf("C07:evaluations:keys=%d", nkeys), 1)
+			ok := r.Panic == nil
+			if ok && c.Res.Ok {
+				ok = r.Err == nil && valsMatch(c.Res.Vals, r.Vals)
+			} else if ok {
+				ok = r.Err != nil
+			}
+			if !ok {
+				w.viol("C07", "order-differs", text, snap(doc), fmt.Sprintf("map built with insertion order #%d, evaluation %d: want %s got %s", mo, rep, expString(c.Res), r), fmt.Sprintf("keys=%d", nkeys), raw)
+				return
+			}
+			if decoy.F != nil {
+				safeCall(decoy.F, decoyDoc)
+			}
+		}
+	}
+	w.distinct(fmt.Sprintf("%s|%d", kinds, nkeys))
 }
